@@ -33,13 +33,44 @@ def _is_self_sub(node, container, index_attr):
     return isinstance(node, ast.Subscript) and is_self_attr(node.value, container) and is_self_attr(node.slice, index_attr)
 
 
-def ordered_delivery(rep, rule, fn, file, label, deliver, container, counter, keyparam):
-    """strict in-order delivery loop (shared shape of Boss.W_received and Boss.D_received_dilate)"""
+def ordered_delivery(rep, rule, fn, file, label, deliver, container, counter, keyparam, once_upstream=None):
+    """strict in-order delivery loop (shared shape of Boss.W_received and Boss.D_received_dilate).
+    `once_upstream` (a callable -> bool): whether whoever feeds this function hands each number in at most once.  If so, a "fast path"
+    that delivers the payload parameter directly is in order as long as it is only taken when the number is NOT ahead of the counter
+    (with no duplicates upstream a number at or below the counter can only be the counter itself)"""
     g = build(fn, split=True)
     dn = g.call_nodes(lambda c: dotted(c.func) == deliver)
     rep.check(rule, "%s delivers through %s" % (label, deliver), bool(dn), site(fn, file), key="%s:%s:no-delivery" % (rule, label))
     if not dn:
         return
+    if once_upstream is not None:
+        from ..cfg import cmp_atom
+        ps_ = params(fn)
+        ahead = cmp_atom(lambda e: isinstance(e, ast.Name) and e.id == keyparam, lambda e: is_self_attr(e, counter), (ast.Gt,), (ast.LtE,))
+        direct = []
+        for n in dn:
+            cs = [c for e in g.head_expr(n) for c in ast.walk(e) if isinstance(c, ast.Call) and dotted(c.func) == deliver]
+            if len(cs) == 1 and len(cs[0].args) == 1 and isinstance(cs[0].args[0], ast.Name) and cs[0].args[0].id in ps_ \
+                    and cs[0].args[0].id != keyparam and not local_defs(fn, cs[0].args[0].id) \
+                    and not g.only_when([n], ahead, False):
+                direct.append(n)
+        if direct and once_upstream():
+            rep.check(rule, "%s: the fast path hands its payload on directly only when its number is not ahead of the counter; every number "
+                      "arrives at most once (de-duplicated upstream), so that number is the counter" % label, True, site(fn, file),
+                      key="%s:%s:fast-path" % (rule, label))
+            dn = [n for n in dn if n not in direct]
+            # the fast path advances the counter too
+            incs0 = g.nodes(lambda s: isinstance(s, ast.AugAssign) and is_self_attr(s.target, counter) and isinstance(s.op, ast.Add) and is_const(s.value, 1))
+            for n in direct:
+                nxt = [y for (y, lab) in g.succ[n] if lab != 'exc']
+                r = g.reach(nxt, avoid_nodes=set(incs0), explicit_only=True)
+                rep.check(rule, "%s: the fast-path delivery is followed by self.%s += 1" % (label, counter), g.exit not in r and not (set(dn) & r),
+                          site(fn, file), key="%s:%s:fast-path-increment" % (rule, label))
+            fast = set(direct)
+        else:
+            fast = set()
+    else:
+        fast = set()
     ok = True
     for n in dn:
         for c in [c for e in g.head_expr(n) for c in ast.walk(e) if isinstance(c, ast.Call) and dotted(c.func) == deliver]:
@@ -83,7 +114,7 @@ def ordered_delivery(rep, rule, fn, file, label, deliver, container, counter, ke
     # and an increment happens only after a delivery (no skipping)
     ok = True
     for i in incs:
-        ok = ok and not g.precedes(dn, [i])
+        ok = ok and not g.precedes(list(dn) + list(fast), [i])
     rep.check(rule, "%s: the counter advances only after a delivery (nothing is skipped)" % label, ok and bool(incs), site(fn, file),
               key="%s:%s:increment-needs-delivery" % (rule, label))
     # the buffer is filled from the parameters
@@ -139,7 +170,16 @@ def r2(tree, prog, rep):
     fn = B.outputs.get("W_received")
     if fn is None:
         raise AnalysisError("Boss.W_received not found")
-    ordered_delivery(rep, "C03.R2", fn, B.file, "Boss.W_received", "self._W.received", "_rx_phases", "_next_rx_phase", "phase")
+    def mailbox_dedups_every_phase():
+        from .C02 import r4_r5 as c02_r4_r5
+        sub = type(rep)(rep.pid, rep.tier, rep.seed)
+        try:
+            c02_r4_r5(tree, prog, sub)
+        except AnalysisError:
+            return False
+        return not [v for v in sub.violations if v["rule"] == "C02.R5"]
+    ordered_delivery(rep, "C03.R2", fn, B.file, "Boss.W_received", "self._W.received", "_rx_phases", "_next_rx_phase", "phase",
+                     once_upstream=mailbox_dedups_every_phase)
     own, foreign = class_writers(tree, "Boss", "_rx_phases")
     for w in own + foreign:
         ok = w in own and ((w.kind == "assign" and w.fn in ("__init__", "__attrs_post_init__", "_init_other_state") and is_empty_ctor(w.value, ("dict",)))
